@@ -3,6 +3,8 @@ pub fn from_str_native(src: &str) -> Result<Self, ParseError>
 /*@
     // same domain as Repr::from_str_native (see there)
     requires 2 <= B <= 36, ascii_text(src@), src@.len() <= 0x0fff_ffff_ffff_ffff,
+        // resource limit: exponent overflow is a documented panic (C16), not modelled (see Repr::from_str_native)
+        parse_room(src@, B as int),
     ensures
         // C08: the written value, and "the precision is determined by the number of digits presented in the input string"
         ret is Ok ==> parsed_ok::<B>(src@, ret.unwrap().repr, ret.unwrap().context.precision)
